@@ -177,12 +177,12 @@ Proof.
   { intros H. apply typed_loader_inv in H. destruct H as (Hk & Hv & Hr). subst k ver.
     split; [exact Hle|left]. split; [discriminate|]. split; [exact E4|]. split; [reflexivity|]. intros _; exact Hr. }
   destruct (String.eqb_spec (id_kind i) (kind_name KAuthRequest)) as [E5|N5].
-  { destruct (um KAuthRequest (id_version i)); kill.
+  { destruct (um KAuthRequest (id_version i) && (id_nats_type i =? kind_name KAuthRequest)%string); kill.
     intros H. injection H as Hk Hv. subst k ver.
     split; [exact Hle|left]. split; [discriminate|]. split; [exact E5|]. split; [reflexivity|].
     intros [F|[F|[F|[F|F]]]]; try discriminate F; destruct F. }
   destruct (String.eqb_spec (id_kind i) (kind_name KAuthResponse)) as [E6|N6].
-  { destruct (um KAuthResponse (id_version i)); kill.
+  { destruct (um KAuthResponse (id_version i) && (id_nats_type i =? kind_name KAuthResponse)%string); kill.
     intros H. injection H as Hk Hv. subst k ver.
     split; [exact Hle|left]. split; [discriminate|]. split; [exact E6|]. split; [reflexivity|].
     intros [F|[F|[F|[F|F]]]]; try discriminate F; destruct F. }
